@@ -36,7 +36,8 @@ def significant(toks):
 
 EDITS = ['delete', 'duplicate', 'swap', 'replace_kind', 'literal_kind', 'indent_line',
          'indent_block', 'truncate', 'stray', 'keyword_swap', 'join_lines', 'replace_type',
-         'reuse_name', 'doc_ref', 'huge_number']
+         'reuse_name', 'clash_name', 'doc_ref', 'huge_number']
+DEF_KEYWORDS = ('struct', 'union', 'union_closed', 'alias', 'annotation', 'annotation_type', 'route')
 HUGE = ['1' + '0' * 400, '-1' + '0' * 400, '1e999', '-1e999', '1e-999', '0.' + '0' * 400 + '1',
         '1' + '0' * 400 + '.5', '9' * 30, '1e308', '1.8e308', '340282346638528859811704183484516925440',
         '340282356779733661637539395458142568448']
@@ -102,6 +103,16 @@ def mutate(text, rnd, other_text=None):
         ids = [j for j in sig if kind_of(toks[j]) == 'id' and toks[j] not in KEYWORDS]
         if len(ids) >= 2:
             i, j = rnd.sample(ids, 2)
+            toks[i] = toks[j]
+    elif e == 'clash_name':
+        # two definitions (of any two kinds) get the same name
+        names = []
+        for a, j in enumerate(sig[:-1]):
+            if toks[j] in DEF_KEYWORDS and (a == 0 or kind_of(toks[sig[a - 1]]) == 'nl') \
+                    and kind_of(toks[sig[a + 1]]) == 'id':
+                names.append(sig[a + 1])
+        if len(names) >= 2:
+            i, j = rnd.sample(names, 2)
             toks[i] = toks[j]
     elif e == 'doc_ref':
         # plant a documentation reference in a string
